@@ -103,6 +103,13 @@ CLAIMED = {
    text="Wrapper chains of length <=3 over NewType / TypeAliasType (value and string) with Final/ClassVar where Python permits, over 10 base types, are placed at root, collection argument, mapping value, tuple member, union member, class field and on the back-edge of a recursive class, and referred to as objects, by string from the defining module (also from three nested calls), by ForwardRef(module=) and by module-qualified string; for every input the outcome with W(T) must equal the outcome with T (value terms equal, or both raise), which TLC checks event by event.",
    ref="DESIGN.md section 4 C11",
    note="Trusted: TLC; term projection; twin classes compared up to their name. typelib's memos are cleared before each string-referenced call (the cross-module poisoning of the reference memo is C12's subject). Strip idempotence is checked at model level on the Terms universe."),
+ "C15": dict(
+   engine="Member",
+   technique="TLA+ spec Terms.tla (extended annotation grammar enumerated by TLC) + Member_Trace.tla ('build' events); every emitted annotation built (unmarshaller, marshaller, codec) under a watchdog, sentinel pass-through probes, rebuild memoised and after cache clearing",
+   level="model_checking",
+   text="TLC enumerates the extended annotation grammar (28 extension leaves -- Any, object, bare builtin/typing generics, free/bound/constrained TypeVars, Callable forms, type[X], bare and parameterised user generics, classes without hints -- under 11 constructors incl. two variadic tuples and class fields; depth 2 over all leaves in thorough) and the ordinary universe; for each annotation the three factories must return without error or non-termination, a sentinel object placed at every reachable pass-through position must come back identical through unmarshal and marshal, and rebuilding (memoised, and after clearing every cache) must give the same behaviour; TLC validates each build event.",
+   ref="DESIGN.md section 4 C15",
+   note="Trusted: TLC; the probe construction in the harness. Termination of graph construction itself is proved on the Graph model (C09/C07)."),
 }
 NOT_BUILT = "check not built yet (build in progress; see DESIGN.md section 7 build order)"
 
